@@ -21,6 +21,7 @@ import time
 import types
 import weakref
 
+import c10
 import valtext
 from lineproto import run_driver, DriverError
 from pipeline import Corr
@@ -63,7 +64,9 @@ EXPLANATION = ("Theorems: unbox_box (what `_box` produces, the peer's `_unbox` a
                "subclass_by_ref, tuple_with_reference_not_value, echo_identity (+ reachable: with C10.alive_while_held), "
                "unbox_two_pass_agrees, missing_local_ref_refused_first, proxy_unique, same_proxy_twice, "
                "proxy_survives_traffic, fresh_proxy_is_new, box_unbox_counts (bridge to the C10 machine), labels_distinct "
-               "(generated constants); over ALL finite conversations (send kept/not, echo, make, forget, any values): "
+               "(generated constants); over all finite sequences of the conversation alphabet — A sends an argument tuple that B keeps "
+               "or not, A has a value echoed, B hands out one of its objects, B forgets what it kept; any values; releases are "
+               "processed synchronously and in order, B never initiates a send, A never forgets — : "
                "conv_invariant (both directions balanced, proxies identified), conv_proxies_identified, conv_echo_identity, "
                "conv_no_leak; one_proxy_across_inspect (generated constant) with stale_miss_makes_two_proxies as the "
                "counterexample for the check-then-insert order. NOT proved (real code only): by-reference mutation, obtain/deliver.")
@@ -358,7 +361,7 @@ class Session:
             if object.__getattribute__(v, "____conn__") is self.conn[side]:
                 pack = tuple(object.__getattribute__(v, "____id_pack__"))
                 return "P%s#%d*%d" % (self.key_of_pack[other].get(pack, "?"), self.serial(side, v),
-                                      object.__getattribute__(v, "____refcount__"))
+                                      c10.refcount_of(v))
             return "?:foreign-proxy"
         if plain(v):
             return valtext.canon(v)
@@ -489,7 +492,7 @@ class Session:
     def tables(self):
         out = []
         for side in ("a", "b"):
-            d = self.conn[side]._local_objects._dict
+            d = c10.lent_table(self.conn[side])
             out.append("%s=%s" % (side, ",".join("-" if p not in d else str(d[p][1]) for p in self.pack_of[side])))
         return " ".join(out)
 
@@ -701,7 +704,7 @@ def extras_copy():
                 errs.append("deliver(%s) did not return a proxy" % name)
                 continue
             pack = tuple(object.__getattribute__(p, "____id_pack__"))
-            there = s.cb._local_objects._dict[pack][0]
+            there = c10.lent_table(s.cb)[pack][0]
             if there is orig or type(there) is not type(orig) or there != orig:
                 errs.append("deliver(%s) did not create an equal, distinct object of the same type at the peer" % name)
     except Exception as ex:  # noqa
@@ -713,6 +716,7 @@ def extras_copy():
 
 
 # ---------------------------------------------------------------------------------------------- correspondence
+@c10.infrastructure
 def correspondence(ctx):
     c = Corr()
     c.rule = ("conversations on two real connections: a corpus (every one of %d kinds of non-plain object — containers, "
@@ -825,7 +829,8 @@ def all_extras():
     import c10
     table = (("mutation-through-proxy", extras_mutation), ("obtain-deliver", extras_copy), ("two-hops", extras_chain),
              ("release-overtakes-reference", extras_overtake), ("falsy-objects", extras_falsy),
-             ("same-object-during-inspect", extras_inspect_window), ("cache-hit-across-gc", extras_cache_gc))
+             ("same-object-during-inspect", extras_inspect_window), ("cache-hit-across-gc", extras_cache_gc),
+             ("unreceivable-message", lambda: c10.extra_unreceivable_message()))
     return tuple((name, c10._bounded_extra(name, fn)) for name, fn in table)
 
 
@@ -982,6 +987,7 @@ def shrink_conv(ops, fails):
     return cur
 
 
+@c10.infrastructure
 def oracle_search(ctx, corr, broken):
     deadline = time.time() + ctx.budget(60, 600)
     r = Rng(ctx.seed).fork("c03-search")
@@ -995,7 +1001,7 @@ def oracle_search(ctx, corr, broken):
             return None
         return dict(kind="history", ops=ops), msg, sig
     for name, fn in all_extras():
-        errs = fn()
+        errs = [e for e in fn() if not e.startswith("[implementation-tied]")]
         if errs and ("c03:" + name) not in known:
             return dict(kind="extra", name=name), "; ".join(errs), "c03:" + name
     for d in corr.disagreements[:40]:
@@ -1027,6 +1033,7 @@ def oracle_search(ctx, corr, broken):
     return None
 
 
+@c10.infrastructure
 def replay(case):
     if case.get("kind") == "extra":
         fn = dict(all_extras())[case["name"]]
@@ -1037,3 +1044,77 @@ def replay(case):
     return dict(case=case, model_ops=texts, implementation=outs, model=model,
                 first_difference=next((i for i, (a, b) in enumerate(zip(outs, model)) if a != b), None),
                 oracle=oracle_conversation(ops) or "holds")
+
+
+# ---------------------------------------------------------------------------------------------- known findings
+class KeyA(object):
+    pass
+
+
+class KeyB(object):
+    pass
+
+
+def probe_key_changes_while_lent():
+    """KNOWN C03:key-of-lent-object-changes-while-lent — `get_id_pack` is recomputed from the object each time (class module and
+    name, id(type), id(obj)).  After `o.__class__ = Other` the same object sent again arrives as a SECOND proxy, and
+    `_handle_del` recomputes the key at release time: dropping the first proxy removes the second proxy's slot, and using the
+    still-live second proxy raises KeyError.  Returns (reproduces, text)."""
+    import c10
+    import simnet
+    from rpyc.core import brine
+
+    def run():
+        seen = []
+        net = simnet.Net()
+        with net.installed():
+            ca, cb = net.connect_pair(compress=False, config_a={"allow_all_attrs": True})
+            try:
+                kept = []
+
+                def keep(x):
+                    kept.append(x)
+                    return len(kept)
+
+                def same():
+                    return kept[0] is kept[1]
+
+                def drop_first_use_second():
+                    del kept[0]
+                    try:
+                        return kept[0].marker
+                    except KeyError:
+                        return "KeyError"
+
+                def ping():
+                    return None
+                keep_p, same_p, dfus_p, ping_p = [ca._unbox(brine.load(brine.dump(cb._box(f))))
+                                                  for f in (keep, same, drop_first_use_second, ping)]
+                o = KeyA()
+                o.marker = "mine"
+                keep_p(o)
+                o.__class__ = KeyB
+                keep_p(o)
+                if not same_p():
+                    seen.append("the same object sent again after `__class__` was reassigned arrives as a second proxy")
+                ping_p()
+                got = dfus_p()
+                ping_p()
+                if got != "mine":
+                    seen.append("after the first proxy was dropped the second, still live, proxy answers %s" % got)
+            finally:
+                keep_p = same_p = dfus_p = ping_p = None
+                net.shutdown([ca])
+        return seen
+    status, res = c10.bounded(run, 30.0)
+    if status != "ok":
+        return False, "the probe did not run (%s)" % status
+    return bool(res), "; ".join(res) if res else "does not reproduce"
+
+
+@c10.infrastructure
+def known_probes(ctx):
+    reproduces, text = probe_key_changes_while_lent()
+    return [("C03:key-of-lent-object-changes-while-lent", reproduces,
+             "signature=C03:key-of-lent-object-changes-while-lent %s" % text)]
+
